@@ -49,6 +49,8 @@ type HStep struct {
 	MutsA, MutsB []int
 	// captured from the subject at query time
 	curVerts  []s2.Point
+	curLoops  [][]s2.Point
+	haveLoops bool
 	subjCells []uint64
 	cellsOK   bool
 	ans       Ans
@@ -432,6 +434,13 @@ func runC13(rc *runCtx) *RunResult {
 				if o.Kind == OLoop {
 					h.curVerts = append([]s2.Point(nil), o.Loop.Vertices()...)
 				}
+				if o.Kind == OPolygon && len(h.MutsA) > 0 {
+					h.curLoops = nil
+					for _, l := range o.Poly.Loops() {
+						h.curLoops = append(h.curLoops, append([]s2.Point(nil), l.Vertices()...))
+					}
+					h.haveLoops = true
+				}
 				if structureSensitive(&h.Q) {
 					if ix := o.index(); ix != nil && ix.IsFresh() {
 						h.subjCells = cellList(ix)
@@ -517,15 +526,29 @@ func runC13(rc *runCtx) *RunResult {
 					rw[q.Obj] = refObject(descs[q.Obj], h.LiveA, h.MutsA, v)
 					label = [...]string{"fresh objects, mutations only", "fresh object, inversions mod 2"}[v]
 				default:
-					// loops only: a brand-new loop made from the subject's current vertices
-					if od.Kind != OLoop || h.curVerts == nil || len(h.MutsA) == 0 || q.Kind == QBounds {
-						// (the bound after Invert is allowed to be looser than the bound of a new loop)
+					// a brand-new loop / polygon made from the subject's current vertices
+					// (the bound after Invert is allowed to be looser than the bound of a new object)
+					if len(h.MutsA) == 0 || q.Kind == QBounds {
 						return "skip"
 					}
-					nl := s2.LoopFromPoints(append([]s2.Point(nil), h.curVerts...))
-					rw[q.Obj] = &Obj{Kind: OLoop, Loop: nl, Desc: od}
-					setMaxEdgesPerCell(embeddedIndex(nl), od.MaxEdges)
-					label = "new loop from the current vertices"
+					switch {
+					case od.Kind == OLoop && h.curVerts != nil:
+						nl := s2.LoopFromPoints(append([]s2.Point(nil), h.curVerts...))
+						rw[q.Obj] = &Obj{Kind: OLoop, Loop: nl, Desc: od}
+						setMaxEdgesPerCell(embeddedIndex(nl), od.MaxEdges)
+						label = "new loop from the current vertices"
+					case od.Kind == OPolygon && h.haveLoops:
+						ls := make([]*s2.Loop, len(h.curLoops))
+						for li, lv := range h.curLoops {
+							ls[li] = s2.LoopFromPoints(append([]s2.Point(nil), lv...))
+						}
+						np := s2.PolygonFromLoops(ls)
+						rw[q.Obj] = &Obj{Kind: OPolygon, Poly: np, Desc: od}
+						setMaxEdgesPerCell(embeddedIndex(np), od.MaxEdges)
+						label = "new polygon from the current loops"
+					default:
+						return "skip"
+					}
 				}
 				if usesObj2(&q) && q.Obj2 != q.Obj {
 					rw[q.Obj2] = refObject(descs[q.Obj2], h.LiveB, h.MutsB, 0)
@@ -548,6 +571,9 @@ func runC13(rc *runCtx) *RunResult {
 				return res
 			}
 			rc.inc("reference_checks", 1)
+			if (q.Kind == QRelContains || q.Kind == QRelIntersects) && len(refAns) == 1 && refAns[0] == 1 && q.Obj != q.Obj2 {
+				rc.inc("probe_relation_true_between_distinct_objects", 1)
+			}
 			subj, ref := h.ans, refAns
 			if v != 0 {
 				// a reference that did not go through the same mutation sequence may store the
